@@ -394,6 +394,16 @@ def run(ctx):
                             res.violation("C14:response-differs:" + stype, "a concurrent response differs from the response the client would get alone", inp,
                                           observed=results[i][:200], required=seq[picks[i]][:200], replay=rp)
                         res.count(f"{stype}:{'same' if results[i] == seq[picks[i]] else 'DIFF'}")
+                # ---- a handset's header block is its own: browsers served after it (no Accept line of their own) get HTML ------
+                ask(port, forms[-3][0], 0, cctx)
+                for rq_ in (forms[-2][0], b"GET / HTTP/1.0\r\n\r\n", forms[-1][0]):
+                    out_ = ask(port, rq_, 0, cctx)
+                    res.evaluations += 1
+                    res.nontrivial.add((stype, "after-handset", rq_))
+                    if b"text/vnd.wap.wml" in out_.split(b"\r\n\r\n")[0] or b"<wml>" in out_[:400]:
+                        res.violation("C14:response-differs:" + stype, "a client without WAP headers is answered as the WAP handset served before it",
+                                      {"server": stype, "scenario": "after a request with WAP headers", "request": rq_}, observed=out_[:160],
+                                      required="the HTTP answer (HTML / the document's own type)", replay={"server": stype, "burst": 0})
                 # ---- clients that misbehave: the others are served as if alone, the server keeps accepting -----------------
                 # (a) clients that connect and stay silent while others are served
                 silent = [socket.create_connection(("127.0.0.1", port), timeout=10) for _ in range(3)]
